@@ -18,8 +18,8 @@ bounded C03 5 6 sync2.Map sequential contract vs builtin map, all call sequences
 // BOUNDED stand-in (randomised schedules; never counted as proved) for the ASSUMED atomicity of sync2.Map that the
 // concurrent wrappers rely on: a key living only in the dirty map is loaded / loaded-or-stored / deleted / stored /
 // ranged over by several goroutines while others force promotions; every outcome is checked against an atomic map.
-bounded C05 3000 40000 sync2.Map atomic contract under concurrent use: rounds of 5 scenario families with forced promotions
-bounded C09 3000 40000 sync2.Map atomic contract under concurrent use: rounds of 5 scenario families with forced promotions
+bounded C05 20000 200000 sync2.Map atomic contract under concurrent use: rounds of 5 scenario families with forced promotions
+bounded C09 20000 200000 sync2.Map atomic contract under concurrent use: rounds of 5 scenario families with forced promotions
 
 func Map.Load
   trusted sequential specification of sync2.Map (C04 is not proved)
